@@ -135,7 +135,12 @@ def build_session(steps, max_cmd=64, max_ack=64, sbrm=None, open_err=None, data_
             elif open_err is not None:
                 expect.append(("err", None))
             else:
-                n = 5 if abrm_cached else 6
+                # bootstrap reads of open: ABRM capability (8 bytes, cached in the handle after the first open), SBRM
+                # address (8), U3VCP capability (8), response time (4), maximum command / acknowledge length (4, 4) -
+                # read under the limits IN FORCE (a reopened handle still has the negotiated ones), hence chunked
+                sizes = ([] if abrm_cached else [8]) + [8, 8, 4, 4, 4]
+                per = max(1, min(cur[1] - 12, 65535))
+                n = sum(-(-sz // per) for sz in sizes)
                 lims += [cur] * n
                 sends += n
                 abrm_cached = True
